@@ -119,7 +119,8 @@ class DiscreteTimeInterpreter(TimeInterpreter):
         b = b * self.ast.U[b_unit]
         e = e * self.ast.U[e_unit]
 
-        sp = Fraction(self.sampling_period * self.ast.U[self.sampling_period_unit])
+        # the period as the user wrote it: 0.067 means 67/1000, not the binary fraction next to it
+        sp = Fraction(str(self.sampling_period)) * self.ast.U[self.sampling_period_unit]
         b = b / sp
         e = e / sp
 
